@@ -74,7 +74,7 @@ def main():
                 meta = json.load(open(os.path.join(out, "meta.json")))
             except Exception:
                 pass
-            meta.update({"breaks_property": pid, "origin": "fourth round, independent sub-agent given only the property text and the titles of the existing changes",
+            meta.update({"breaks_property": pid, "origin": "independent sub-agent given only the property text and the titles of the existing changes",
                          "suite": os_.strip(), "what_was_run": {"demo_clean_rc": rc0, "demo_patched_rc": rc1}})
             res = {}
             for c in [pid] + [x for x in extra if x != pid]:
